@@ -1,6 +1,6 @@
 (* C16 — commands are atomic with respect to concurrent clients.  Property theorems only. *)
 From Coq Require Import String Permutation.
-From GR Require Import Base Resp Handler Exec Conn Multi Redis Linear.
+From GR Require Import Base Resp Handler Exec Conn Multi Redis Linear LinearFacts.
 Open Scope Z_scope.
 
 (* (1) the checker that judges the recorded histories is sound: a history it accepts has a sequential order that
@@ -10,6 +10,17 @@ Open Scope Z_scope.
 Theorem C16_checker_sound : forall fuel s pending, lin fuel s pending = true -> linearizable s pending.
 Proof. exact lin_sound. Qed.
 Print Assumptions C16_checker_sound.
+
+(* (1') and complete: with fuel = the number of operations (the extracted checker runs with one more, which changes
+   nothing) it accepts EVERY linearizable history — so `lin` decides linearizability: a history the check rejects has no
+   linearization at all (the checker itself cannot raise a false alarm), and one it accepts has one *)
+Theorem C16_checker_decides : forall s ops, lin (length ops) s ops = true <-> linearizable s ops.
+Proof. exact lin_decides. Qed.
+Print Assumptions C16_checker_decides.
+
+Theorem C16_checker_fuel : forall s ops fuel, (length ops <= fuel)%nat -> lin fuel s ops = lin (length ops) s ops.
+Proof. exact lin_fuel. Qed.
+Print Assumptions C16_checker_fuel.
 
 (* (2) executing the commands one at a time — what the command lock around handleMessage provides — yields a
    linearizable history, for every command sequence and every store *)
